@@ -7,6 +7,7 @@ import (
 	"encoding/binary"
 	"errors"
 	"fmt"
+	"io"
 	"net"
 	"runtime"
 	"sort"
@@ -28,6 +29,7 @@ type scriptConn struct {
 	idx         int
 	fail        bool // after the chunks: a read error (else block until closed)
 	errWithData bool // the failing Read also delivers the last chunk (n > 0 together with the error)
+	eof         bool // the failure is io.EOF (the peer closed the connection), not some other error
 	closed      chan struct{}
 	once        sync.Once
 	writes      [][]byte
@@ -55,16 +57,22 @@ func (c *scriptConn) Read(p []byte) (int, error) {
 		last := c.idx >= len(c.chunks)
 		c.mu.Unlock()
 		if last && c.fail && c.errWithData {
-			return n, errors.New("scripted connection failure")
+			return n, c.failure()
 		}
 		return n, nil
 	}
 	c.mu.Unlock()
 	if c.fail {
-		return 0, errors.New("scripted connection failure")
+		return 0, c.failure()
 	}
 	<-c.closed
 	return 0, errors.New("use of closed network connection")
+}
+func (c *scriptConn) failure() error {
+	if c.eof {
+		return io.EOF
+	}
+	return errors.New("scripted connection failure")
 }
 func (c *scriptConn) Write(b []byte) (int, error) {
 	if len(b) > 1000 {
@@ -220,6 +228,7 @@ func runC10(seed uint64, tier, dir, replay string) error {
 		}
 		conn := &scriptConn{chunks: split(rng, append([]byte{}, stream[:k]...), mode), fail: failed == 1, closed: make(chan struct{}), yieldRd: rng.Bool()}
 		conn.errWithData = failed == 1 && rng.Intn(3) == 0 // io.Reader allows n > 0 together with the error
+		conn.eof = rng.Bool()                              // a closed connection reads as io.EOF
 		old := runtime.GOMAXPROCS([]int{1, 2, 4, 16}[rng.Intn(4)])
 		var prs util.Parser = rawParser{slow: rng.Bool()}
 		if rng.Bool() {
@@ -326,7 +335,7 @@ func runC10(seed uint64, tier, dir, replay string) error {
 		o.Add(fmt.Sprintf("(Defr %s %s)", listT(cts), listT(bts)),
 			map[string]interface{}{"kind": "deframe", "chunks": len(chunks), "frames": nf, "buffers_seen_by_parsers": len(bufs)}, "deframe", fmt.Sprint(nf, len(chunks)))
 	}
-	o.Meta["rule"] = "real util.MessageStream over a scripted net.Conn: 1..40 well-formed frames of 8..6048 bytes (incl. sizes around and beyond the 2 KiB pool buffers), every fourth history 60-200 small frames (more than the pool has buffers), every eighth 52-63 frames above 2 KiB, the byte stream cut into reads byte-by-byte / 1..7 / 1..3000 / one chunk, a connection failure after a random byte, inside the first header, or exactly after a frame, reported by a Read of its own or together with the last bytes; GOMAXPROCS 1/2/4/16, yields injected in Read, in the parser and in the consumer; every delivered message kept until the history is over and then compared byte for byte with its frame (parsers: a copying one and the library's own opaque-payload decoder); the buffers handed to the parser goroutines compared with the model's de-framer on the same chunks; distinct by frames x chunk mode x failure x whole frames"
+	o.Meta["rule"] = "real util.MessageStream over a scripted net.Conn: 1..40 well-formed frames of 8..6048 bytes (incl. sizes around and beyond the 2 KiB pool buffers), every fourth history 60-200 small frames (more than the pool has buffers), every eighth 52-63 frames above 2 KiB, the byte stream cut into reads byte-by-byte / 1..7 / 1..3000 / one chunk, a connection failure after a random byte, inside the first header, or exactly after a frame, reported by a Read of its own or together with the last bytes, as io.EOF or as another error; GOMAXPROCS 1/2/4/16, yields injected in Read, in the parser and in the consumer; every delivered message kept until the history is over and then compared byte for byte with its frame (parsers: a copying one and the library's own opaque-payload decoder); the buffers handed to the parser goroutines compared with the model's de-framer on the same chunks; distinct by frames x chunk mode x failure x whole frames"
 	return o.Close()
 }
 
